@@ -234,6 +234,8 @@ func (ctx *Context) GetCurSeed() ([]byte, error) {
 	if ctx.RandSrc != nil {
 		return ctx.RandSrc.MarshalBinary()
 	}
+	randSourceLock.Lock()
+	defer randSourceLock.Unlock()
 	return randSource.MarshalBinary()
 }
 
